@@ -21,6 +21,7 @@ import (
 	"context"
 	"encoding/binary"
 	"encoding/json"
+	"errors"
 	"os"
 	"sort"
 	"sync"
@@ -41,6 +42,10 @@ type vgStep struct {
 	D    int      `json:"d"`
 	Sess int      `json:"sess"`
 	Hold bool     `json:"hold"`
+	// Fault: the next FetchConsumerGroup of the coordinator fails once (a Join right after a fail-over)
+	Fault bool `json:"fault"`
+	// PutFail: the next PutConsumerGroup fails once (the write at the end of this JoinGroup)
+	PutFail bool `json:"putfail"`
 }
 
 const (
@@ -51,10 +56,12 @@ const (
 // vgGateStore parks the next armed store call until release() is called.
 type vgGateStore struct {
 	metadata.Store
-	mu      sync.Mutex
-	armed   int
-	parked  bool
-	release chan struct{}
+	mu        sync.Mutex
+	armed     int
+	parked    bool
+	failFetch bool
+	failPut   bool
+	release   chan struct{}
 }
 
 func (g *vgGateStore) gate(kind int) {
@@ -93,12 +100,36 @@ func (g *vgGateStore) open() {
 	g.mu.Unlock()
 }
 
+func (g *vgGateStore) setFailFetch(on bool) {
+	g.mu.Lock()
+	g.failFetch = on
+	g.mu.Unlock()
+}
+
+func (g *vgGateStore) FetchConsumerGroup(ctx context.Context, groupID string) (*metadatapb.ConsumerGroup, error) {
+	g.mu.Lock()
+	fail := g.failFetch
+	g.failFetch = false
+	g.mu.Unlock()
+	if fail {
+		return nil, errors.New("verif: injected metadata store read failure")
+	}
+	return g.Store.FetchConsumerGroup(ctx, groupID)
+}
+
 func (g *vgGateStore) Metadata(ctx context.Context, topics []string) (*metadata.ClusterMetadata, error) {
 	g.gate(vgGateMeta)
 	return g.Store.Metadata(ctx, topics)
 }
 
 func (g *vgGateStore) PutConsumerGroup(ctx context.Context, group *metadatapb.ConsumerGroup) error {
+	g.mu.Lock()
+	fail := g.failPut
+	g.failPut = false
+	g.mu.Unlock()
+	if fail {
+		return errors.New("verif: injected metadata store write failure")
+	}
 	g.gate(vgGateWrite)
 	return g.Store.PutConsumerGroup(ctx, group)
 }
@@ -112,6 +143,7 @@ type vgSched struct {
 	Sess   int            `json:"sess"`
 	Reb    int            `json:"reb"`
 	NParts map[string]int `json:"nparts"`
+	UnitMs int            `json:"unit_ms"`
 	Steps  []vgStep       `json:"steps"`
 }
 
@@ -159,7 +191,7 @@ func vgDecodeAsg(b []byte) [][]any {
 }
 
 // vgProject turns a groupState into the abstract group record of Group.tla (ticks = seconds since start).
-func vgProject(g *groupState, start time.Time, name func(string) string) map[string]any {
+func vgProject(g *groupState, start time.Time, unit time.Duration, name func(string) string) map[string]any {
 	if g == nil {
 		return map[string]any{"none": true}
 	}
@@ -167,7 +199,7 @@ func vgProject(g *groupState, start time.Time, name func(string) string) map[str
 		if t.IsZero() {
 			return 0
 		}
-		return int(t.Sub(start) / time.Second)
+		return int(t.Sub(start) / unit)
 	}
 	mem := map[string]any{}
 	asg := map[string]any{}
@@ -178,7 +210,7 @@ func vgProject(g *groupState, start time.Time, name func(string) string) map[str
 		if !m.lastHeartbeat.IsZero() {
 			hb = secs(m.lastHeartbeat)
 		}
-		mem[name(id)] = map[string]any{"topics": tp, "jg": int(m.joinGeneration), "hb": hb, "sess": int(m.sessionTimeout / time.Second)}
+		mem[name(id)] = map[string]any{"topics": tp, "jg": int(m.joinGeneration), "hb": hb, "sess": int(m.sessionTimeout / unit)}
 		asg[name(id)] = [][]any{}
 	}
 	for id, a := range g.assignments {
@@ -191,7 +223,7 @@ func vgProject(g *groupState, start time.Time, name func(string) string) map[str
 		asg[name(id)] = l // an entry of a non-member shows up as an extra key and is rejected by layer C
 	}
 	return map[string]any{"none": false, "gen": int(g.generationID), "phase": groupPhaseString(g.state), "leader": name(g.leaderID),
-		"mem": mem, "asg": asg, "rebT": int(g.rebalanceTimeout / time.Second), "deadline": secs(g.rebalanceDeadline)}
+		"mem": mem, "asg": asg, "rebT": int(g.rebalanceTimeout / unit), "deadline": secs(g.rebalanceDeadline)}
 }
 
 func TestVerifGroupReplay(t *testing.T) {
@@ -242,7 +274,14 @@ func vgRun(t *testing.T, s vgSched, idx int) []map[string]any {
 	store := vgStore(s.NParts)
 	gate := &vgGateStore{Store: store}
 	start := time.Now()
-	cfg := &CoordinatorConfig{CleanupInterval: time.Second}
+	// one model tick = one cleanup interval = `unit` of virtual time (1 s unless the schedule says otherwise: with 500 ms two
+	// consecutive ticks are less than a second apart, which matters for anything that treats sub-second spacing specially)
+	unit := time.Second
+	if s.UnitMs > 0 {
+		unit = time.Duration(s.UnitMs) * time.Millisecond
+	}
+	unitMs := int(unit / time.Millisecond)
+	cfg := &CoordinatorConfig{CleanupInterval: unit}
 	c := NewGroupCoordinator(gate, protocol.MetadataBroker{}, cfg)
 	real2model := map[string]string{}
 	model2real := map[string]string{}
@@ -275,7 +314,7 @@ func vgRun(t *testing.T, s vgSched, idx int) []map[string]any {
 	memState := func() map[string]any {
 		c.mu.Lock()
 		defer c.mu.Unlock()
-		return vgProject(c.groups[vgGroup], start, name)
+		return vgProject(c.groups[vgGroup], start, unit, name)
 	}
 	restored := func() *groupState {
 		g, err := store.FetchConsumerGroup(ctx, vgGroup)
@@ -316,12 +355,12 @@ func vgRun(t *testing.T, s vgSched, idx int) []map[string]any {
 			m["pending"] = false
 		}
 		m["st"] = memState()
-		m["rst"] = vgProject(restored(), start, name)
+		m["rst"] = vgProject(restored(), start, unit, name)
 		m["offs"] = offsets()
-		m["now"] = int(time.Since(start) / time.Second)
+		m["now"] = int(time.Since(start) / unit)
 		lines = append(lines, m)
 	}
-	emit(map[string]any{"ev": "Reset", "sched": idx, "sess": s.Sess, "reb": s.Reb, "tps": tps})
+	emit(map[string]any{"ev": "Reset", "sched": idx, "sess": s.Sess, "reb": s.Reb, "tps": tps, "unit_ms": unitMs})
 	// ---- held steps (see the comment at the top of the file)
 	type heldStep struct {
 		kind string
@@ -399,24 +438,44 @@ func vgRun(t *testing.T, s vgSched, idx int) []map[string]any {
 			if st.Sess > 0 {
 				sess = st.Sess
 			}
-			r.SessionTimeoutMillis, r.RebalanceTimeoutMillis = int32(sess*1000), int32(s.Reb*1000)
-			p := kmsg.NewJoinGroupRequestProtocol()
-			p.Name, p.Metadata = "range", c.encodeSubscription(st.Sub)
-			r.Protocols = append(r.Protocols, p)
-			resp, err := c.JoinGroup(ctx, r)
-			if err != nil {
-				t.Fatalf("JoinGroup: %v", err)
+			r.SessionTimeoutMillis, r.RebalanceTimeoutMillis = int32(sess*unitMs), int32(s.Reb*unitMs)
+			if len(st.Sub) > 0 { // the empty subscription is sent as a request without any protocol (nothing to parse)
+				p := kmsg.NewJoinGroupRequestProtocol()
+				p.Name, p.Metadata = "range", c.encodeSubscription(st.Sub)
+				r.Protocols = append(r.Protocols, p)
 			}
-			model2real[st.C] = resp.MemberID
-			real2model[resp.MemberID] = st.C
 			sub := append([]string{}, st.Sub...)
 			sort.Strings(sub)
+			gate.setFailFetch(st.Fault)
+			gate.mu.Lock()
+			gate.failPut = st.PutFail
+			gate.mu.Unlock()
+			resp, err := c.JoinGroup(ctx, r)
+			gate.setFailFetch(false)
+			gate.mu.Lock()
+			gate.failPut = false
+			gate.mu.Unlock()
+			if err != nil {
+				if !st.Fault {
+					t.Fatalf("JoinGroup: %v", err)
+				}
+				emit(map[string]any{"ev": "JoinErr", "c": st.C, "gen": 0, "sub": sub, "sess": sess, "code": -100})
+				break
+			}
+			if resp.MemberID != "" {
+				model2real[st.C] = resp.MemberID
+				real2model[resp.MemberID] = st.C
+			}
 			list := []string{}
 			for _, m := range resp.Members {
 				list = append(list, name(m.MemberID))
 			}
 			sort.Strings(list)
-			emit(map[string]any{"ev": "Join", "c": st.C, "gen": 0, "sub": sub, "sess": sess, "code": int(resp.ErrorCode), "rgen": int(resp.Generation), "leader": name(resp.LeaderID), "list": list})
+			ev, pending := "Join", false
+			if st.PutFail && resp.ErrorCode == protocol.UNKNOWN_SERVER_ERROR {
+				ev, pending = "JoinFail", true // the write failed: memory is ahead of the store until the next successful write
+			}
+			emit(map[string]any{"ev": ev, "pending": pending, "c": st.C, "gen": 0, "sub": sub, "sess": sess, "code": int(resp.ErrorCode), "rgen": int(resp.Generation), "leader": name(resp.LeaderID), "list": list})
 		case "Sync":
 			r := kmsg.NewPtrSyncGroupRequest()
 			r.Group, r.MemberID, r.Generation = vgGroup, idOf(st.C), curGen()+int32(st.D)
@@ -477,8 +536,8 @@ func vgRun(t *testing.T, s vgSched, idx int) []map[string]any {
 			if st.Hold {
 				gate.arm(vgGateWrite)
 			}
-			time.Sleep(time.Second) // virtual: the coordinator's own ticker fires at the same instant
-			synctest.Wait()         // ... and cleanupGroups has finished (or is parked at the gate) when every goroutine is blocked again
+			time.Sleep(unit) // virtual: the coordinator's own ticker fires at the same instant
+			synctest.Wait()  // ... and cleanupGroups has finished (or is parked at the gate) when every goroutine is blocked again
 			tick := map[string]any{"ev": "Tick", "c": "", "gen": 0, "code": 0}
 			if st.Hold && gate.isParked() {
 				if c.mu.TryLock() { // cleanup writes outside the lock
